@@ -2527,16 +2527,36 @@ DLLIMPORT int cfg_setlist(cfg_t *cfg, const char *name, unsigned int nvalues, ..
 	va_list ap;
 	int result;
 	cfg_opt_t *opt = cfg_getopt(cfg, name);
+	cfg_opt_t old;
+	cfg_value_t **newvalues;
+	unsigned int newn;
+	cfg_flag_t newflags;
 
 	if (!opt || !is_set(CFGF_LIST, opt->flags)) {
 		errno = EINVAL;
 		return CFG_FAIL;
 	}
 
-	cfg_free_value(opt);
+	/* Build the new list before the old one is released: an argument may
+	 * be a string the caller got from this very list. */
+	old = *opt;
+	opt->values = NULL;
+	opt->nvalues = 0;
+
 	va_start(ap, nvalues);
 	result = nvalues ? cfg_addlist_internal(opt, nvalues, ap) : CFG_SUCCESS;
 	va_end(ap);
+
+	newvalues = opt->values;
+	newn = opt->nvalues;
+	newflags = opt->flags;
+	opt->values = old.values;
+	opt->nvalues = old.nvalues;
+	opt->flags = old.flags;
+	cfg_free_value(opt);
+	opt->values = newvalues;
+	opt->nvalues = newn;
+	opt->flags = newflags;
 
 	return result;
 }
